@@ -294,3 +294,4 @@ M('c16-loop-to-comprehension', ['C16'], Y23 + 'f1040.py', "            for n in 
 # ------------------------------------------------------------------ C17 inline switches
 M('r175-inline-status-dropped', ['C17'], Y21 + 'f1040_s2_need6251.py', "            if i['1040.filing_status'] in [filing_status.Single, filing_status.HeadOfHousehold]:\n                return 73600.0", "            if i['1040.filing_status'] in [filing_status.Single]:\n                return 73600.0", 'R17.5', 'a status dropped from an inline 2021 chain falls into not_implemented()')
 M('r175-inline-none', ['C17'], Y21 + 'f1040_s2_need6251.py', "            elif i['1040.filing_status'] == filing_status.MarriedFilingSeparately:\n                return 57300.0\n            else:\n                self.not_implemented()", "            elif i['1040.filing_status'] == filing_status.MarriedFilingSeparately:\n                return None", 'R17.5', 'a status yields nothing in a pure switch')
+M('r186-nc-status-boxes', ['C18'], Y23 + 'fnc_d_400.py', "BooleanField('4', lambda s, i, v: i['1040.filing_status'] == enum.filing_status.HeadOfHousehold),", "BooleanField('4', lambda s, i, v: i['1040.filing_status'] != enum.filing_status.Single),", 'R18.6', 'NC filing-status box 4 is on for every status but single (two boxes on)')
